@@ -356,7 +356,10 @@ def gen_token_case(ch):
         good = {'bool': [True, False], 'num': [0, 1, 2.5], 'str': ['a', 'b']}[base]
         vals = [ch.pick(good) for _ in range(ch.int(0, 3))]
         if ch.int(0, 2) == 0:
-            vals.insert(ch.int(0, len(vals)), ch.pick([v for v in pool if not any(v is g for g in good) and v not in good]))
+            bad = [v for v in pool if not any(v is g for g in good) and v not in good]
+            if base == 'bool':
+                bad += [0, 1, 0.0, 1.0]  # equal to False / True, and hashing alike, but numbers
+            vals.insert(ch.int(0, len(vals)), ch.pick(bad))
         return {'ctor': c, 'base': base, 'values': vals}
     return {'ctor': c, 'type': ch.int(0, 127)}
 
